@@ -293,7 +293,7 @@ func execute(in Input) (out []obs, failure string) {
 	}()
 	select {
 	case <-done:
-	case <-time.After(20 * time.Second):
+	case <-time.After(hangTimeout):
 		return nil, "hang"
 	}
 	return out, failure
@@ -301,7 +301,11 @@ func execute(in Input) (out []obs, failure string) {
 
 var kindNames = []string{"heap-min", "heap-max", "emap", "eheap"}
 
-func run(in Input, gen string) emit.Case {
+// hangTimeout bounds one case; a hang is reported as a failing case and ends the run at once (the stuck
+// goroutine may be allocating without bound).
+const hangTimeout = 8 * time.Second
+
+func run(in Input, gen string) (emit.Case, bool) {
 	out, failure := execute(in)
 	ops := make([]string, len(in.Ops))
 	for i, o := range in.Ops {
@@ -331,7 +335,7 @@ func run(in Input, gen string) emit.Case {
 		Failure string `json:"failure,omitempty"`
 		Steps   int    `json:"steps_observed"`
 	}{in, failure, len(out)}
-	return emit.Case{Coq: coq, JSON: mirror, Nontrivial: maxLen >= 2 && len(in.Ops) >= 5, Kind: kindNames[in.Kind%4] + gen, Sig: sig}
+	return emit.Case{Coq: coq, JSON: mirror, Nontrivial: maxLen >= 2 && len(in.Ops) >= 5, Kind: kindNames[in.Kind%4] + gen, Sig: sig}, failure == "hang"
 }
 
 // ---- generators --------------------------------------------------------------------------------
@@ -481,7 +485,8 @@ func enumEHeap(w *emit.Writer, depth int) {
 	var rec func(ops []Op)
 	rec = func(ops []Op) {
 		if len(ops) == depth {
-			_ = w.Put(run(Input{Kind: 3, NIDs: 3, Ops: append([]Op{}, ops...)}, "+enum"))
+			c, _ := run(Input{Kind: 3, NIDs: 3, Ops: append([]Op{}, ops...)}, "+enum")
+			_ = w.Put(c)
 			return
 		}
 		for _, o := range alphabet {
@@ -511,7 +516,11 @@ func TestDriver(t *testing.T) {
 			if err := json.Unmarshal(raw, &in); err != nil {
 				t.Fatal(err)
 			}
-			_ = w.Put(run(in, "+replay"))
+			c, hung := run(in, "+replay")
+			_ = w.Put(c)
+			if hung {
+				return
+			}
 		}
 		return
 	}
@@ -520,6 +529,10 @@ func TestDriver(t *testing.T) {
 		enumEHeap(w, 4)
 	}
 	for i := 0; i < env.N; i++ {
-		_ = w.Put(run(gen(r), ""))
+		c, hung := run(gen(r), "")
+		_ = w.Put(c)
+		if hung {
+			return
+		}
 	}
 }
